@@ -56,6 +56,18 @@ func TestReplayDistLeaseReload(t *testing.T) {
 	}
 }
 
+// KF-C01-7: the store record of a lapsed lease lingers (store clean-up lags the local reclaim by an epoch), the address is
+// re-assigned, and on restart the lapsed holder's record wins the conflict.
+func TestReplayDistLeaseStaleRecord(t *testing.T) {
+	msg := inBubble(t, func(ft fataler) {
+		f := pools.DistFactory("10.0.0.0/30", 32, true, 0, false, "replay", synctest.Wait)
+		runHistory(ft, f, []pools.Op{op(pools.OpAlloc, 0, 0), op(pools.OpAdvance, 0, 0), op(pools.OpAdvance, 0, 0), op(pools.OpAlloc, 1, 0), op(pools.OpReload, 0, 0)}, runOpt{})
+	})
+	if msg != "" {
+		t.Fatalf("%s", msg)
+	}
+}
+
 // KF-C01-6: lease-mode handleRemoteChange ignores the prefix a peer recorded.
 func TestReplayDistLeaseRemote(t *testing.T) {
 	msg := inBubble(t, func(ft fataler) {
